@@ -19,7 +19,7 @@ def pview (c : Cand) : Nat × Option Nat × Option Nat × List Nat × Bool × Li
 theorem matches_congr (s : Stmt) (i : Nat) (a b : Cand) (h : pview a = pview b) :
     s.matches i a = s.matches i b := by
   simp only [pview, Prod.mk.injEq] at h
-  unfold Stmt.matches asPathLen; rw [h.2.2.2.1, h.2.2.2.2.2.1, h.2.2.2.2.2.2]
+  unfold Stmt.matches asPathLen; rw [h.2.1, h.2.2.1, h.2.2.2.1, h.2.2.2.2.2.1, h.2.2.2.2.2.2]
 
 theorem modify_pview (s : Stmt) (a b : Cand) (h : pview a = pview b) :
     pview (s.modify a) = pview (s.modify b) := by
